@@ -75,6 +75,14 @@ def gen_program(rng):
         return "%s(%s)" % (f, ",".join(args)), is_str
 
     for _ in range(rng.randint(2, 6)):
+        if rng.random() < 0.2:
+            # a second DEF for a name already defined in this run (other body, maybe other parameters): the newest one counts
+            j = rng.randrange(len(fns))
+            f, k, s0, ps0 = fns[j]
+            if not s0:
+                ps = rng.sample([p for p in PARAMS if not p.endswith("$")], rng.randint(1, 2))
+                add("DEF %s(%s)=%s" % (f, ",".join(ps), rng.choice(["*", "-", "+"]).join(ps + [rng.choice(["10", "Y", "A*2"])])))
+                fns[j] = (f, len(ps), False, ps)
         c, is_str = call()
         r = rng.random()
         if r < 0.4:
